@@ -64,3 +64,35 @@ theorem snap_position_monotone (cf : Cfg) (d : Durable) (v : Vol) (fpos : Nat ×
         · subst hs; exact hv1
 
 end SV
+
+namespace SV
+
+/-! ## requests of an older term change nothing (C18: the leader a follower names; C06) -/
+
+/-- a RequestVote of an older term: no write, the state untouched, refused with the server's term -/
+theorem stale_vote_inert (d : Durable) (v : Vol) (q : VoteReq) (h : q.term < v.term) :
+    (votePlan d v q).steps = [] ∧ (votePlan d v q).final = mkRes (.vote v.term false) v := by
+  unfold votePlan
+  simp only []
+  split
+  · exact ⟨rfl, rfl⟩
+  · split
+    · exact ⟨rfl, rfl⟩
+    · exact ⟨rfl, rfl⟩
+
+/-- an InstallSnapshot of an older term: no write, the state untouched (in particular the leader the
+    server names), refused with the server's term -/
+theorem stale_install_inert (cf : Cfg) (d : Durable) (v : Vol) (q : ISReq) (h : q.term < v.term) :
+    (isPlan cf d v q).steps = [] ∧ (isPlan cf d v q).final = mkRes (.install v.term false false) v := by
+  unfold isPlan
+  rw [if_pos h]
+  exact ⟨rfl, rfl⟩
+
+/-- an AppendEntries of an older term likewise -/
+theorem stale_append_inert (cf : Cfg) (d : Durable) (v : Vol) (a : AEReq) (h : a.term < v.term) :
+    (aePlan cf d v a).steps = [] ∧ (aePlan cf d v a).final.vol = v := by
+  unfold aePlan
+  rw [if_pos h]
+  exact ⟨rfl, rfl⟩
+
+end SV
